@@ -192,7 +192,7 @@ func randomShape(id string, rng *rand.Rand, size int) (absd.Desc, absd.Cfg) {
 		d.Deps = []absd.Dep{{Pkg: "lim", Share: true, Msgs: []absd.Msg{leaf}}}
 	}
 	c := absd.Cfg{Types: []string{"Root"}, Sort: rng.Intn(2) == 0, TimeType: true, DurationType: true,
-		Exclude: []string{}, Required: []string{}, Computed: []string{}, Sensitive: []string{}, NameOverrides: []absd.KV{},
+		Exclude: []string{}, Required: []string{}, Computed: []string{}, Sensitive: []string{}, NameOverrides: []absd.KV{}, SchemaTypes: []absd.KV{},
 		Validators: []absd.KVs{}, PlanModifiers: []absd.KVs{}, Injected: []absd.KInj{}, CustomTypes: []absd.KV{}, Suffixes: []absd.KV{},
 		Channel: []absd.KV{}, Alts: []absd.Alt{}}
 	// flags on random root fields (full path) and leaf fields (Message.field)
